@@ -1,6 +1,7 @@
 # C10 Netcode connection table: unique ids, unique addresses, bounded by max_clients
 import re
 from sa.rules import *
+import rules.shared as shared
 from rules.netcode_common import *
 import rules.C05 as C05
 
@@ -84,4 +85,5 @@ def rules(t):
         r.site(s)
         if (s.fn.path, s.bb, s.idx) not in known: r.bad(f"{s.fn.path}|other", s, f"unexpected slot write {fmt(t.stored(s))[:40]}")
     out.append(r)
+    out.append(shared.slots_match_limit(t, "C10.f"))
     return out
